@@ -136,6 +136,7 @@ class Contract:
         self.opaque_calendar = kw.pop("opaque_calendar", False)
         self.relational = kw.pop("relational", [])     # [(label, shared-params, requires-src, ensures-src)]
         self.reveal = kw.pop("reveal", [])             # opaque ghost functions expanded in this contract
+        self.no_merge = kw.pop("no_merge", [])         # line numbers / True: do not join these `if` branches
         if kw:
             raise TypeError(f"unknown contract keys {list(kw)}")
         self.requires = [(f"r{i}", c) if isinstance(c, str) else c for i, c in enumerate(self.requires)]
@@ -661,6 +662,9 @@ class Exec:
                 vals.append(v)
                 if i < len(node.values) - 1:
                     t = self.truthy(st, v)
+                    ts = z3.simplify(t)
+                    if (is_and and z3.is_false(ts)) or (not is_and and z3.is_true(ts)):
+                        break               # short-circuit decided syntactically: later operands never run
                     conds.append(t)
                     st.guards.append(t if is_and else z3.Not(t))
                     pushed += 1
@@ -1328,7 +1332,10 @@ class Exec:
                     s2.trace.append("F")
                     b2 = self.run_block(s.orelse, s2)
             merged = None
-            if b1 is not None and b2 is not None and len(b1) == 1 and len(b2) == 1 \
+            nm = self.c.no_merge
+            if nm is True or (nm and ast.unparse(s.test) in nm):
+                pass
+            elif b1 is not None and b2 is not None and len(b1) == 1 and len(b2) == 1 \
                     and b1[0].kind == "normal" and b2[0].kind == "normal":
                 merged = self._merge(st0, c, b1[0].st, b2[0].st)
             if merged is not None:
